@@ -10,7 +10,8 @@ GEN_KEYS = ['canon']
 M = 'MorphKgc.Props.C15'
 THEOREMS = [{'name': f'Props.C15.{n}', 'module': M} for n in [
     'sites_ok', 'C15_identity', 'C15_integer', 'C15_integer_cases_disjoint', 'C15_no_abort', 'C15_no_abort_literal',
-    'C15_boolean', 'C15_dateTime', 'C15_dateTime_valid', 'C15_canon_before_escape', 'C15_literal']]
+    'C15_boolean', 'C15_dateTime', 'C15_dateTime_valid', 'C15_canon_before_escape', 'C15_literal', 'C15_idempotent',
+    'C15_only_documented']]
 RULE = ('one case = (site, datatype, cell value): site in {_materialize_template reference-valued, template-valued (two references), '
         '_materialize_fnml_execution (execute_fnml stubbed to copy a column), non-literal term types, _materialize_rml_rule_terms with a '
         'constant / reference-valued datatype map}; datatype in {xsd:integer, boolean, dateTime, decimal, double, date, string, a custom IRI, '
